@@ -45,12 +45,22 @@ finding(["C02","C13"], "S5", "AP.S~Shape.S",
         "the shape-only and the access-pattern slice calculators disagree (consequence of findings 2 and 3)",
         "LEN = ((END - START) / STEP) ; if ((((END - START) % STEP) > 0) && (I > 0)) { LEN = (LEN + 1) } ; if (0 >= LEN) { LEN = 1 } | LEN = (END - START) <> LEN = ((END - START) / STEP) ; if (0 >= LEN) { LEN = 1 } | LEN = (END - START)", 3)
 
+# ---- engine O (ownership) ---------------------------------------------------------------------
+for key, sig in [("tensor.(*Dense).TensorMul(axesA)", "mutates element store at"), ("tensor.(*Dense).TensorMul(axesB)", "mutates element store at"),
+                 ("tensor.Contract(aAxes)", "mutates via TensorMul: element store at"), ("tensor.Contract(bAxes)", "mutates via TensorMul: element store at")]:
+    finding(["C19","C09"], "O3", key, "TensorMul normalises negative axes in place in the caller's axesA/axesB slices (axesA[i] += td)", sig, 11)
+finding(["C19","C13","C03","C08"], "O8", "tensor.(*Dense).ShallowClone#store1",
+        "ShallowClone shares old (and transposeWith) with the source: s := a.ShallowClone(); s.UT(); a.UT() puts one slice in the pool twice",
+        "alias stored into another object", 33)
+
 # ---- engine L (layout predicates) ------------------------------------------------------------
 finding(["C12","C16","C07","C06","C11"], "L0", "tensor.prepDataUnary#useIter",
         "prepDataUnary has no data-order term: Neg(colA, WithIncr(rowZeros)) adds raw column-major data into a row-major buffer (non-incr reuse is compensated by handleFuncOpts giving reuse the operand's order)",
         "rows 12,20 of riA,riR,nnR,colA,colR", 41)
 
 FIXED = [
+ {"property":"C19","commit":"65180de","rule":"O2","key":"tensor.(*Dense).T(axes), tensor.(*Dense).SafeT(axes), tensor.T(axes), tensor.Transpose(axes), TensorMul(axesB), Contract(bAxes)","what":"fixed: property=C19 65180de Dense.T/SafeT kept the caller's axes slice in transposeWith; UT/Transpose then zeroed and pooled it (axes=[2,0,1] became [0,0,0]); also removes RollAxis' dangling pooled slice under inplacetranspose (DESIGN findings 8, 9)"},
+ {"property":"C19","commit":"40cd994","rule":"O3","key":"tensor.Sum(along), tensor.(*Dense).Sum/Max/Min(along), tensor.(StdEng).Sum/Max/Min(along), tensor.(*Dense).Norm(axes)","what":"fixed: property=C19 40cd994 StdEng.reduce sorted the caller's along slice in place: Sum(t,2,0) left []int{2,0} as {0,2} (also C08; DESIGN finding 10)"},
  {"property":"C01","commit":"a1a5269","rule":"S1","key":"tensor.Ltoi#loop","what":"fixed: property=C01 a1a5269 Ltoi accepted negative coordinates: At(1,-1) on a (3,3) tensor returned element 2, At(-1,2) panicked (DESIGN finding 1)"},
  {"property":"C12","commit":"f9c3ab4","rule":"K2","key":"internal/execution.MapIncrErr/*, internal/execution.MapIterIncrErr/*","what":"fixed: property=C12 f9c3ab4 MapIncrErr*/MapIterIncrErr* (all 15 types) stored a[i] = x where MapIncr/MapIterIncr do a[i] += fn(a[i]) (also C17, C07; DESIGN finding 36)"},
  {"property":"C06","commit":"5c3ad09","rule":"K2","key":"internal/execution.DivIterIncr{,SV,VS}/int:*","what":"fixed: property=C06 5c3ad09 integer DivIterIncr/DivIterIncrSV/DivIterIncrVS zeroed incr[i] through an operand's iterator index instead of the increment's own (also C07, C17; found by K2/K7 index pairing)"},
